@@ -89,6 +89,21 @@ CLAIMED = {
              "(constant-evaluated by clang), and float/enum misuse fails to compile. Not a proof for all values.",
         technique="CFG dominance on the template pattern + compile-time witness TU (static_assert grids, compile-fail witnesses)",
         design="5/C52"),
+    "C53": dict(
+        text="Atomic discipline of Ipc::Mem::IdSet/PageStack: the non-atomic node alias is reachable only from the pre-sharing initialisation chain "
+             "(whole program), every node access in innerPush/innerPop/leafPush/leafPop is an atomic RMW/load, CAS loops pass the loaded local as "
+             "expected and recompute the desired value after every failed attempt, push sets the leaf bit before inner counters, pop takes inner "
+             "counters before the leaf and fails only at the root, size_ is decremented only after a successful pop and incremented before push. "
+             "Linearizability under interleavings is NOT decided.",
+        technique="whole-program who-calls + resolved-callee operation whitelist + response rule on CAS retry edges + ORDER (must-pass)",
+        design="5/C53"),
+    "C56": dict(
+        text="SPSC discipline of Ipc::OneToOneUniQueue (template pattern): push copies only when !full(), copies before theSize++ publishes, "
+             "wasEmpty is the result of that RMW and drives the wake-up; pop copies only after the last empty() test was false, re-tests empty() "
+             "after announcing block() before giving up, copies before --theSize; theIn/theOut have a single writer each and theSize is only "
+             "changed by ++/-- (whole program); raiseSignal uses exchange, clearSignal unblocks first. FIFO/no-lost-wakeup over schedules is NOT decided.",
+        technique="CFG dominance/ORDER with an event hook for announce-then-retest + whole-program who-writes",
+        design="5/C56"),
 }
 
 NOT_APPLICABLE = {
